@@ -209,7 +209,7 @@ func (d *drv) txn(steps []string) {
 	}
 	vf := violFields(alt)
 	d.rc.Emit(rec.M{"ev": "Validate", "kind": "txn", "path": "submit", "steps": steps, "alt": sorted(alt), "accepted": accepted,
-		"hash_changed": t.ComputeHash() != origHash, "why": why, "viol_fields": vf, "ttype": t.TransactionType},
+		"hash_changed": t.ComputeHash() != origHash, "why": why, "viol_fields": vf, "unbound": unboundFields(steps, "txn"), "ttype": t.TransactionType},
 		fmt.Sprintf("txn/submit/%v/%v", steps, accepted), accepted)
 
 	// the block path: the same object inside a block received by a verifier (miner.ValidateTransactions:
@@ -238,8 +238,85 @@ func (d *drv) txn(steps []string) {
 		bwhy = bwhy[:80]
 	}
 	d.rc.Emit(rec.M{"ev": "Validate", "kind": "txn", "path": "block", "steps": steps, "alt": sorted(alt), "accepted": baccepted,
-		"hash_changed": t.ComputeHash() != origHash, "why": bwhy, "viol_fields": vf, "ttype": t.TransactionType},
+		"hash_changed": t.ComputeHash() != origHash, "why": bwhy, "viol_fields": vf, "unbound": unboundFields(steps, "txn"), "ttype": t.TransactionType},
 		fmt.Sprintf("txn/block/%v/%v", steps, baccepted), baccepted)
+}
+
+// unboundFields replays the tamper steps on the abstract object of Binding.tla (the same fold as
+// Trace_Binding!ApplyAll) and names what keeps the result from being valid under the intended binding: the
+// must-bind fields whose alteration the hash / the signature does not cover, plus "+other" when something
+// else is wrong too (signature broken or by a key that is not the declared one, sender/key mismatch, duplicate).
+// Known findings are identified by it: "state" = nothing is wrong except that the state root is not covered.
+func unboundFields(steps []string, kind string) string {
+	must := map[string]bool{}
+	names := []string{"time", "nonce", "sender", "recipient", "value", "data", "fee", "type"}
+	if kind == "block" {
+		names = []string{"sender", "parent", "round", "seed", "txns", "outputs", "state", "magicblock"}
+	}
+	for _, n := range names {
+		must[n] = true
+	}
+	alt, hashed, sigHash := map[string]bool{}, map[string]bool{}, map[string]bool{}
+	cid, pub, sigKey, sigBroken, dup := "victim", "victim", "victim", false, false
+	altered := func() map[string]bool {
+		o := map[string]bool{}
+		for k := range alt {
+			if must[k] {
+				o[k] = true
+			}
+		}
+		if cid != "victim" {
+			o["sender"] = true
+		}
+		return o
+	}
+	for _, st := range steps {
+		switch st {
+		case "SetSender":
+			cid = "attacker"
+			if kind != "txn" {
+				pub = "attacker"
+			}
+		case "SetPub":
+			pub = "attacker"
+		case "Rehash":
+			hashed = altered()
+		case "Resign":
+			sigKey, sigBroken = "attacker", false
+			sigHash = map[string]bool{}
+			for k := range hashed {
+				sigHash[k] = true
+			}
+		case "BreakSig":
+			sigBroken = true
+		case "Duplicate":
+			dup = true
+		default:
+			alt[st] = true
+		}
+	}
+	diff := map[string]bool{}
+	a := altered()
+	for k := range a {
+		if !hashed[k] {
+			diff[k] = true
+		}
+	}
+	for k := range hashed {
+		if !a[k] || !sigHash[k] {
+			diff[k] = true
+		}
+	}
+	for k := range sigHash {
+		if !hashed[k] {
+			diff[k] = true
+		}
+	}
+	out := violFields(diff)
+	if sigBroken || sigKey != pub || (kind == "txn" && pub != cid) || dup {
+		out += "+other"
+	}
+	return out
 }
 
 func violFields(alt map[string]bool) string {
@@ -359,7 +436,7 @@ func (d *drv) block(steps []string) {
 		why = why[:80]
 	}
 	d.rc.Emit(rec.M{"ev": "Validate", "kind": "block", "path": "receive", "steps": steps, "alt": sorted(alt), "accepted": accepted,
-		"hash_changed": b.ComputeHash() != origHash, "why": why, "viol_fields": violFields(alt), "ttype": 0},
+		"hash_changed": b.ComputeHash() != origHash, "why": why, "viol_fields": violFields(alt), "unbound": unboundFields(steps, "block"), "ttype": 0},
 		fmt.Sprintf("block/%v/%v", steps, accepted), accepted)
 }
 
